@@ -181,7 +181,7 @@ CLAIMED = {
         text="Lean theorems: the wait loop never sends or flushes; every send_request log is flush, one send, then waits only (any outcome), at most one send per call and "
              "two for the composite, stale frames cannot influence a call and the queue is empty afterwards, a call is a function of (arguments, configuration, timing, flags), "
              "failing calls leave the state untouched. Tied by histories with residue frames and failures on the real client, a fresh-client replay of every call, a state-diff "
-             "monitor over all 80 entry points, and the context manager on every exit path.",
+             "monitor over all 80 entry points, and the context manager on every exit path. Over arbitrary histories (Props/C15Hist.earlier_calls_do_not_matter): after any earlier sequence of calls of any outcome (session changes excepted), seed/key composites and stray frames, a call behaves exactly as on a fresh client.",
         design_ref='DESIGN.md §3 C15',
         technique='Lean 4 proof (induction on arrivals; log-shape invariant) + differential/metamorphic history suite'),
     'C18': dict(
